@@ -181,3 +181,34 @@ def uncoarsegrain_ok(shape, im, envs=None):
                 if im[i] == -1 and float(un.data.value[smp * 2 * n + s * n + i]) != 0.0:
                     return False
     return True
+
+
+def simulate_with_map(shape, mode):
+    """simulate(..., cgmap=...) through the real build: the identity map reproduces the plain simulation sample by sample; a
+    grouping map gives a trajectory of the ORIGINAL shape whose per-species totals equal those of the plain run at every sample
+    (pure diffusion, Euler) and whose system / script are the original ones"""
+    from strengths import simulate
+    from vt.glue import real_engine
+    w, h, d = shape
+    n = w * h * d
+    envs = [0] * n
+    net = RDNetwork(species=[Species("A", D=1.5), Species("B", D={"e0": 0.5})], reactions=[], environments=["e0", "e1"])
+    st = [float((3 * k + 1) % 7) * 10.0 for k in range(2 * n)]
+    sysm = RDSystem(net, RDGridSpace(w=w, h=h, d=d, cell_env=envs, cell_vol=8.0), state=st)
+    ts = [0.0, 0.5, 1.0]
+    plain = simulate(sysm, ts, engine=real_engine("euler"), time_step=0.125)
+    cg = list(range(n)) if mode == 0 else [k // 2 for k in range(n)]
+    out = simulate(sysm, ts, engine=real_engine("euler"), cgmap=cg, time_step=0.125)
+    a, b = [float(v) for v in plain.data.value], [float(v) for v in out.data.value]
+    if len(a) != len(b) or list(out.t.value) != list(plain.t.value) or out.system.space.size() != n:
+        return False
+    if mode == 0:
+        return all(abs(x - y) <= 1e-9 * (1 + abs(x)) for x, y in zip(a, b))
+    ns = 2
+    for smp in range(len(ts)):
+        for s in range(ns):
+            ta = sum(a[smp * ns * n + s * n:smp * ns * n + (s + 1) * n])
+            tb = sum(b[smp * ns * n + s * n:smp * ns * n + (s + 1) * n])
+            if abs(ta - tb) > 1e-9 * (1 + abs(ta)):
+                return False
+    return True
